@@ -83,3 +83,18 @@ func mustBeAcceptedButIllTyped(t *testing.T, pkg *gogen.Package, build func()) {
 	}
 	t.Logf("builder accepted; go/types says: %v\n%s", err, src)
 }
+
+// newXGoPkg builds a package with the big-number configuration of the XGo front end.
+func newXGoPkg() *gogen.Package {
+	conf := &gogen.Config{Fset: fset, Importer: imp}
+	conf.NewBuiltin = func(pkg *gogen.Package, conf *gogen.Config) *types.Package {
+		b := pkg.Import("github.com/goplus/gogen/internal/builtin")
+		builtin := types.NewPackage("", "")
+		conf.UntypedBigInt = b.Ref("XGo_untyped_bigint").Type().(*types.Named)
+		conf.UntypedBigRat = b.Ref("XGo_untyped_bigrat").Type().(*types.Named)
+		conf.UntypedBigFloat = b.Ref("XGo_untyped_bigfloat").Type().(*types.Named)
+		gogen.InitBuiltin(pkg, builtin, conf)
+		return builtin
+	}
+	return gogen.NewPackage("", "main", conf)
+}
